@@ -8,6 +8,7 @@ import ast
 
 from ..program import Program, dotted, norm, const_fold
 from ..report import AnalysisError
+from ..flow import guards_of, facts
 
 PYX = 'cherab/core/atomic/elements.pyx'
 LINE = 'cherab/core/atomic/line.pyx'
@@ -24,6 +25,16 @@ class Rec(dict):
     __getattr__ = dict.__getitem__
 
 
+_LOCALS = {}
+
+
+def _set_locals(fn):
+    _LOCALS.clear()
+    for n in ast.walk(fn):
+        if isinstance(n, ast.Assign) and len(n.targets) == 1 and isinstance(n.targets[0], ast.Name):
+            _LOCALS.setdefault(n.targets[0].id, []).append(n.value)
+
+
 def _key_eval(e, obj):
     """Evaluate an index key expression over a record."""
     if isinstance(e, ast.Constant):
@@ -31,6 +42,8 @@ def _key_eval(e, obj):
     if isinstance(e, ast.Name):
         if e.id == 'obj':
             return obj
+        if e.id in _LOCALS and len(_LOCALS[e.id]) == 1:
+            return _key_eval(_LOCALS[e.id][0], obj)        # a local of the builder holding part of the key
         raise AnalysisError('C19: unknown name %s in index key' % e.id)
     if isinstance(e, ast.Attribute):
         v = _key_eval(e.value, obj)
@@ -61,6 +74,8 @@ def check(run):
     mi = prog.load(PYX)
     prog.load(LINE)
     prog.link()
+    prog.normalise_module(mi, only=('lookup_element', 'lookup_isotope'))
+    prog.normalise_module(mi, only=('_build_element_index', '_build_isotope_index'), propagate=False)
     run.use_file(PYX)
     run.use_file(PYX[:-1] + 'd')
     run.use_file(LINE)
@@ -188,22 +203,25 @@ def check(run):
         if fn is None:
             raise AnalysisError('anchored function vanished: %s' % builder)
         keyexprs = []
-        typetest = None
+        filt = []
+        _set_locals(fn)
         for n in ast.walk(fn):
             if isinstance(n, ast.Assign) and isinstance(n.targets[0], ast.Subscript) and norm(n.targets[0].value) == idxname:
                 if norm(n.value) != 'obj':
                     raise AnalysisError('C19: %s stores %s' % (builder, norm(n.value)))
                 keyexprs.append(n.targets[0].slice)
-            if isinstance(n, ast.If):
-                typetest = norm(n.test)
+                f = facts(guards_of(fn, n) or [])
+                filt.append(('type(obj)', 'is', kindname) in f or ('type(obj)', '==', kindname) in f)
+                others = sorted(a for a in f if a[0].startswith(('type(obj)', 'isinstance(obj')) and a != ('type(obj)', 'is', kindname)
+                                and a != (kindname, 'is', 'type(obj)') and not (a[1] in ('is not', '!=')))
         if not keyexprs:
             raise AnalysisError('C19: no index stores found in %s' % builder)
         run.subject('C19-R3')
-        if typetest == 'type(obj) is %s' % kindname:
-            run.ok('C19-R3', builder + ' type filter', typetest)
+        if all(filt):
+            run.ok('C19-R3', builder + ' type filter', 'type(obj) is %s holds at every index store' % kindname)
         else:
             run.fail('C19-R3', K + builder + '|type-filter', PYX, fn.lineno,
-                     "%s selects objects with '%s', expected 'type(obj) is %s'" % (builder, typetest, kindname))
+                     "%s does not restrict the index stores to objects with 'type(obj) is %s'" % (builder, kindname))
         called = any(isinstance(st, ast.Expr) and isinstance(st.value, ast.Call) and dotted(st.value.func) == builder for st in mi.tree.body)
         run.subject('C19-R3')
         last_def = max(r.line for r in recs.values()) if recs else 0
@@ -244,27 +262,60 @@ def check(run):
                 else:
                     run.fail('C19-R3', K + 'lookup|%s|%s' % (r.var, what), PYX, r.line,
                              "%s cannot be looked up by its %s: key '%s' is never inserted" % (r.var, what, k))
-    # lookups lower-case their query
-    for fname, idxname in (('lookup_element', '_element_index'), ('lookup_isotope', '_isotope_index')):
+    # lookups: interpreted on probe arguments -- every object must be found by its identifiers in any letter case, and every
+    # isotope by (its element, its mass number)
+    indexes = {}
+    for builder, idxname, recs, kindname in (('_build_element_index', '_element_index', elements, 'Element'),
+                                              ('_build_isotope_index', '_isotope_index', isotopes, 'Isotope')):
+        fnb = mi.functions[builder]
+        kx = [n.targets[0].slice for n in ast.walk(fnb) if isinstance(n, ast.Assign) and isinstance(n.targets[0], ast.Subscript) and norm(n.targets[0].value) == idxname]
+        ix = {}
+        _set_locals(fnb)
+        for r in sorted(recs.values(), key=lambda r: r.var):
+            if kindname == 'Isotope' and 'element' not in r:
+                continue
+            for ke in kx:
+                try:
+                    ix[_key_eval(ke, r)] = r
+                except AnalysisError:
+                    pass
+        indexes[idxname] = ix
+    for fname, idxname, recs in (('lookup_element', '_element_index', elements), ('lookup_isotope', '_isotope_index', isotopes)):
         fn = mi.functions.get(fname)
         if fn is None:
             raise AnalysisError('anchored function vanished: %s' % fname)
-        keys = [v for t, v in [(st.targets[0], st.value) for st in ast.walk(fn) if isinstance(st, ast.Assign)] if norm(t) == 'key']
-        subs = [n for n in ast.walk(fn) if isinstance(n, ast.Subscript) and norm(n.value) == idxname]
-        run.subject('C19-R3')
-        if subs and all(norm(s.slice) == 'key' for s in subs) and keys and all(norm(k).endswith('.lower()') for k in keys):
-            run.ok('C19-R3', fname + ' lower-cases the query', [norm(k) for k in keys])
-        else:
-            run.fail('C19-R3', K + fname + '|lowercase', PYX, fn.lineno,
-                     '%s does not look the lower-cased query up in %s: keys %s' % (fname, idxname, [norm(k) for k in keys]))
-        if fname == 'lookup_isotope':
-            run.subject('C19-R3')
-            want = '(element.symbol + str(%s)).lower()' % fn.args.args[1].arg
-            if any(norm(k) == want for k in keys):
-                run.ok('C19-R3', 'lookup_isotope(element, number) key', want)
+        probes = []
+        for r in recs.values():
+            if fname == 'lookup_isotope' and 'element' not in r:
+                continue
+            probes.append((r, 'name in upper case', (r.name.upper(), None)))
+            probes.append((r, 'symbol in upper case', (r.symbol.upper(), None)))
+            probes.append((r, 'symbol in lower case', (r.symbol.lower(), None)))
+            if fname == 'lookup_isotope':
+                probes.append((r, 'element object and mass number', (r.element, r.mass_number)))
+                probes.append((r, 'element symbol and mass number', (r.element.symbol.upper(), r.mass_number)))
             else:
-                run.fail('C19-R3', K + 'lookup_isotope|number-key', PYX, fn.lineno,
-                         'lookup_isotope(v, number) does not build the key %s: %s' % (want, [norm(k) for k in keys]))
+                probes.append((r, 'atomic number', (r.atomic_number, None)))
+        bad, und = {}, None
+        for r, what, args in probes:
+            try:
+                got = _lookup_eval(fn, args, indexes, mi)
+            except _NoInterp as e:
+                und = str(e)
+                break
+            if got is not r:
+                bad.setdefault(what, (r, got))
+        run.subject('C19-R3')
+        if und:
+            run.undecided('C19-R3', fname, 'cannot interpret %s' % und)
+        elif bad:
+            what, (r, got) = sorted(bad.items())[0]
+            run.fail('C19-R3', K + fname + '|probe|' + what.replace(' ', '-'), PYX, fn.lineno,
+                     '%s does not find %s by its %s (it %s): the query is not reduced to the lower-cased key the index was built with'
+                     % (fname, r.var, what, 'raises' if got is None else 'returns %s' % got.var))
+        else:
+            run.ok('C19-R3', fname + ' finds every object by every identifier', '%d probes (any letter case%s)' % (
+                len(probes), '; element + mass number' if fname == 'lookup_isotope' else '; atomic number'))
     # ---- R4 hash / eq
     run.describe('C19-R4', 'hashed fields subset of fields compared by ==; != is the De Morgan dual; hashed fields readonly; name compared')
     for cq, path in ((MOD + '.Element', PYX), (MOD + '.Isotope', PYX), ('cherab.core.atomic.line.Line', LINE)):
@@ -288,6 +339,8 @@ def check(run):
         for n in ast.walk(rc):
             if isinstance(n, ast.If) and isinstance(n.test, ast.Compare) and norm(n.test.left) == rc.args.args[2].arg:
                 code = const_fold(n.test.comparators[0])
+                if code is None:
+                    code = {'Py_EQ': 2, 'Py_NE': 3, 'Py_LT': 0, 'Py_LE': 1, 'Py_GT': 4, 'Py_GE': 5}.get(norm(n.test.comparators[0]))
                 ret = [s for s in n.body if isinstance(s, ast.Return)]
                 if not ret:
                     continue
@@ -298,9 +351,16 @@ def check(run):
                     ne_fields = _cmp_fields(e, ast.Or, ast.NotEq)
         run.subject('C19-R4')
         if eq_fields is None or ne_fields is None:
-            run.fail('C19-R4', Kc + 'richcmp-shape', path, rc.lineno,
-                     '%s.__richcmp__: == is not a conjunction of field equalities or != not a disjunction of field inequalities' % ci.name)
+            run.undecided('C19-R4', ci.name + '.__richcmp__', '== / != are not a conjunction / disjunction of per-field comparisons')
             continue
+        loose = [f[:-1] for f in eq_fields if f.endswith('~') and f[:-1] in hashed]
+        if loose:
+            run.fail('C19-R4', Kc + 'eq-transformed', path, rc.lineno,
+                     '%s.__richcmp__ compares a function of %s while __hash__ hashes the field itself: objects that differ only in how '
+                     '%s is spelled compare equal but hash differently' % (ci.name, loose, loose[0]))
+            continue
+        eq_fields = [f.rstrip('~') for f in eq_fields]
+        ne_fields = [f.rstrip('~') for f in ne_fields]
         if set(hashed) <= set(eq_fields):
             run.ok('C19-R4', ci.name + ' hash subset of eq', 'hash%s eq%s' % (hashed, eq_fields))
         else:
@@ -343,16 +403,168 @@ def check(run):
     run.extra['isotopes'] = len(isotopes)
 
 
+class _NoInterp(Exception):
+    pass
+
+
+def _lookup_eval(fn, args, indexes, mi):
+    """Run lookup_element / lookup_isotope on concrete probe arguments. Returns the record found or None (ValueError)."""
+    ps = [a.arg for a in fn.args.args]
+    env = dict(zip(ps, args))
+    for p_, d in zip(ps[len(ps) - len(fn.args.defaults):], fn.args.defaults):
+        if p_ not in env or env[p_] is None and len(args) <= ps.index(p_):
+            env.setdefault(p_, d.value if isinstance(d, ast.Constant) else None)
+
+    class _Ret(Exception):
+        def __init__(self, v):
+            self.v = v
+
+    class _Brk(Exception):
+        pass
+
+    class _KeyErr(Exception):
+        pass
+
+    def ev(e):
+        if isinstance(e, ast.Constant):
+            return e.value
+        if isinstance(e, ast.Name):
+            if e.id in env:
+                return env[e.id]
+            if e.id in ('Element', 'Isotope'):
+                return e.id
+            raise _NoInterp('name %s' % e.id)
+        if isinstance(e, ast.Attribute):
+            v = ev(e.value)
+            if isinstance(v, Rec) and e.attr in v:
+                return v[e.attr]
+            raise _NoInterp(norm(e))
+        if isinstance(e, ast.BinOp) and isinstance(e.op, ast.Add):
+            return ev(e.left) + ev(e.right)
+        if isinstance(e, ast.Subscript) and isinstance(e.value, ast.Name) and e.value.id in indexes:
+            k = ev(e.slice)
+            if k in indexes[e.value.id]:
+                return indexes[e.value.id][k]
+            raise _KeyErr()
+        if isinstance(e, ast.Call):
+            d = dotted(e.func)
+            if d == 'str' and len(e.args) == 1:
+                v = ev(e.args[0])
+                if isinstance(v, Rec):
+                    raise _NoInterp('str() of an object')
+                return str(v)
+            if d == 'type' and len(e.args) == 1:
+                v = ev(e.args[0])
+                return v.kind if isinstance(v, Rec) and 'kind' in v else type(v).__name__
+            if d == 'isinstance' and len(e.args) == 2:
+                v = ev(e.args[0])
+                k = norm(e.args[1])
+                return isinstance(v, Rec) and (v.get('kind') == k or (k == 'Element' and v.get('kind') == 'Isotope'))
+            if d in ('lookup_element', 'lookup_isotope') and d in mi.functions:
+                r = _lookup_eval(mi.functions[d], tuple(ev(a) for a in e.args), indexes, mi)
+                if r is None:
+                    raise _KeyErr()
+                return r
+            if isinstance(e.func, ast.Attribute) and e.func.attr in ('lower', 'upper', 'strip', 'capitalize', 'casefold') and not e.args:
+                v = ev(e.func.value)
+                if isinstance(v, str):
+                    return getattr(v, e.func.attr)()
+            if isinstance(e.func, ast.Attribute) and e.func.attr == 'get' and isinstance(e.func.value, ast.Name) and e.func.value.id in indexes:
+                return indexes[e.func.value.id].get(ev(e.args[0]))
+            raise _NoInterp(norm(e)[:50])
+        if isinstance(e, ast.Compare) and len(e.ops) == 1:
+            l, r = ev(e.left), ev(e.comparators[0])
+            op = type(e.ops[0])
+            if op in (ast.Is, ast.Eq):
+                return l == r
+            if op in (ast.IsNot, ast.NotEq):
+                return l != r
+            if op is ast.In:
+                return l in r
+            if op is ast.NotIn:
+                return l not in r
+        if isinstance(e, ast.UnaryOp) and isinstance(e.op, ast.Not):
+            return not ev(e.operand)
+        if isinstance(e, ast.BoolOp):
+            if isinstance(e.op, ast.And):
+                v = True
+                for x in e.values:
+                    v = ev(x)
+                    if not v:
+                        return v
+                return v
+            v = False
+            for x in e.values:
+                v = ev(x)
+                if v:
+                    return v
+            return v
+        if isinstance(e, ast.IfExp):
+            return ev(e.body) if ev(e.test) else ev(e.orelse)
+        if isinstance(e, ast.Tuple):
+            return tuple(ev(x) for x in e.elts)
+        raise _NoInterp(norm(e)[:50])
+
+    def block(stmts):
+        for st in stmts:
+            if isinstance(st, ast.Expr):
+                continue
+            if isinstance(st, ast.Return):
+                raise _Ret(ev(st.value) if st.value is not None else None)
+            if isinstance(st, ast.Assign) and len(st.targets) == 1 and isinstance(st.targets[0], ast.Name):
+                env[st.targets[0].id] = ev(st.value)
+            elif isinstance(st, ast.If):
+                block(st.body if ev(st.test) else st.orelse)
+            elif isinstance(st, ast.Try):
+                try:
+                    block(st.body)
+                    block(st.orelse)
+                except _KeyErr:
+                    hs = [h for h in st.handlers if h.type is None or 'KeyError' in norm(h.type) or norm(h.type) in ('Exception', 'LookupError')]
+                    if not hs:
+                        raise
+                    block(hs[0].body)
+            elif isinstance(st, ast.Raise):
+                raise _Ret(None)
+            elif isinstance(st, ast.For) and isinstance(st.iter, ast.Tuple) and len(st.iter.elts) == 1:
+                try:
+                    block(st.body)
+                except _Brk:
+                    pass
+            elif isinstance(st, ast.Break):
+                raise _Brk()
+            elif isinstance(st, ast.Pass):
+                continue
+            else:
+                raise _NoInterp(norm(st)[:50])
+    try:
+        block(fn.body)
+    except _Ret as r:
+        return r.v if isinstance(r.v, Rec) else None
+    except _KeyErr:
+        return None
+    return None
+
+
 def _cmp_fields(e, boolop, cmpop):
+    """Fields compared by a conjunction / disjunction of per-field comparisons; a field compared through a function of its
+    value is returned as 'field~'. None: not of that form."""
     vals = e.values if isinstance(e, ast.BoolOp) and isinstance(e.op, boolop) else [e]
     out = []
     for v in vals:
         if not (isinstance(v, ast.Compare) and len(v.ops) == 1 and isinstance(v.ops[0], cmpop)):
             return None
         l, r = v.left, v.comparators[0]
-        if not (isinstance(l, ast.Attribute) and isinstance(r, ast.Attribute) and l.attr == r.attr and norm(l.value) == 'self'):
-            return None
-        out.append(l.attr)
+        if isinstance(l, ast.Attribute) and isinstance(r, ast.Attribute) and l.attr == r.attr and norm(l.value) == 'self':
+            out.append(l.attr)
+            continue
+        # f(self.a) == f(other.a)
+        la = [x for x in ast.walk(l) if isinstance(x, ast.Attribute) and norm(x.value) == 'self']
+        ra = [x for x in ast.walk(r) if isinstance(x, ast.Attribute) and isinstance(x.value, ast.Name) and x.value.id != 'self']
+        if len(la) == 1 and len(ra) == 1 and la[0].attr == ra[0].attr and not isinstance(l, ast.Attribute):
+            out.append(la[0].attr + '~')
+            continue
+        return None
     return out
 
 
